@@ -51,20 +51,73 @@ theorem isoWeeks_28 (y n : Nat) (h1 : 1901 ≤ y) (h2 : y + 28 * n ≤ 2099) : i
   rw [e, week1Start_28 (y + 1) n (by omega) (by omega), week1Start_28 y n h1 (by omega)]
   congr 1; omega
 
-theorem weeknoOk_sh28 (r : Rule) (x : Inst) (n : Nat) (h1 : 1901 ≤ x.y) (h2 : x.y + 28 * n ≤ 2099) :
-    weeknoOk r (sh28 x n) ↔ weeknoOk r x := by
-  unfold weeknoOk
-  rw [dayOf_sh28 x n h1 h2]
-  show (∃ k ∈ r.wk, let w := if k > 0 then k else isoWeeks (x.y + 28 * n) + 1 + k
-    1 ≤ w ∧ w ≤ isoWeeks (x.y + 28 * n) ∧ week1Start (x.y + 28 * n) + 7 * (w - 1) ≤ dayOf x + 10227 * n ∧
-      dayOf x + 10227 * n < week1Start (x.y + 28 * n) + 7 * w) ↔ _
-  rw [isoWeeks_28 x.y n h1 h2, week1Start_28 x.y n h1 (by omega)]
-  apply exists_congr; intro k
-  apply and_congr Iff.rfl
+/-- the Monday of week 1 of 1900 too repeats after 28 years (January 1900 does not: 1900 is no leap year) -/
+theorem week1Start_28_1900 : ∀ n, n < 8 → week1Start (1900 + 28 * n) = week1Start 1900 + 10227 * n := by decide +kernel
+
+theorem week1Start_28' (y n : Nat) (h1 : 1900 ≤ y) (h2 : y + 28 * n ≤ 2100) :
+    week1Start (y + 28 * n) = week1Start y + 10227 * n := by
+  by_cases c : y = 1900
+  · subst c; exact week1Start_28_1900 n (by omega)
+  · exact week1Start_28 y n (by omega) h2
+
+theorem isoWeeks_tab1 : ∀ i, i < 101 → (isoWeeks (1900 + i) == (getIsowk (1900 + i) : Int)) = true := by decide +kernel
+theorem isoWeeks_tab2 : ∀ i, i < 100 → (isoWeeks (2001 + i) == (getIsowk (2001 + i) : Int)) = true := by decide +kernel
+
+theorem isoWeeks_tab (y : Nat) (h1 : 1900 ≤ y) (h2 : y ≤ 2100) : isoWeeks y = (getIsowk y : Int) := by
+  by_cases c : y ≤ 2000
+  · have a := isoWeeks_tab1 (y - 1900) (by omega)
+    have e1 : 1900 + (y - 1900) = y := by omega
+    rw [e1, beq_iff_eq] at a; exact a
+  · have a := isoWeeks_tab2 (y - 2001) (by omega)
+    have e1 : 2001 + (y - 2001) = y := by omega
+    rw [e1, beq_iff_eq] at a; exact a
+
+theorem isoWeeks_28' (y n : Nat) (h1 : 1900 ≤ y) (h2 : y + 28 * n ≤ 2100) : isoWeeks (y + 28 * n) = isoWeeks y := by
+  rw [isoWeeks_tab y h1 (by omega), isoWeeks_tab (y + 28 * n) (by omega) h2]
+  have : (y + 28 * n) % 28 = y % 28 := by omega
+  unfold getIsowk; rw [this]
+
+/-- day `D` lies in week `k` of the ISO year `iy` -/
+def InWkD (iy : Nat) (k D : Int) : Prop :=
+  let w := if k > 0 then k else isoWeeks iy + 1 + k
+  1 ≤ w ∧ w ≤ isoWeeks iy ∧ week1Start iy + 7 * (w - 1) ≤ D ∧ D < week1Start iy + 7 * w
+
+theorem inWk_28 (iy n : Nat) (k D : Int) (h1 : 1900 ≤ iy) (h2 : iy + 28 * n ≤ 2100) :
+    InWkD (iy + 28 * n) k (D + 10227 * n) ↔ InWkD iy k D := by
+  unfold InWkD
+  rw [isoWeeks_28' iy n h1 h2, week1Start_28' iy n h1 h2]
   dsimp only
   constructor
   · rintro ⟨a, b, c, d⟩; exact ⟨a, b, by omega, by omega⟩
   · rintro ⟨a, b, c, d⟩; exact ⟨a, b, by omega, by omega⟩
+
+theorem weeknoOk_sh28 (r : Rule) (x : Inst) (n : Nat) (h1 : 1901 ≤ x.y) (h2 : x.y + 28 * n ≤ 2099) :
+    weeknoOk r (sh28 x n) ↔ weeknoOk r x := by
+  unfold weeknoOk
+  rw [dayOf_sh28 x n h1 h2]
+  show (∃ k ∈ r.wk, ∃ iy ∈ [x.y + 28 * n - 1, x.y + 28 * n, x.y + 28 * n + 1], InWkD iy k (dayOf x + 10227 * n)) ↔
+    (∃ k ∈ r.wk, ∃ iy ∈ [x.y - 1, x.y, x.y + 1], InWkD iy k (dayOf x))
+  have e1 : x.y + 28 * n - 1 = (x.y - 1) + 28 * n := by omega
+  have e3 : x.y + 28 * n + 1 = (x.y + 1) + 28 * n := by omega
+  have a1 := inWk_28 (x.y - 1) n
+  have a2 := inWk_28 x.y n
+  have a3 := inWk_28 (x.y + 1) n
+  rw [e1, e3]
+  apply exists_congr; intro k
+  apply and_congr Iff.rfl
+  constructor
+  · rintro ⟨iy, hiy, h⟩
+    simp only [List.mem_cons, List.not_mem_nil, or_false] at hiy
+    rcases hiy with rfl | rfl | rfl
+    · exact ⟨x.y - 1, by simp, (a1 k _ (by omega) (by omega)).1 h⟩
+    · exact ⟨x.y, by simp, (a2 k _ (by omega) (by omega)).1 h⟩
+    · exact ⟨x.y + 1, by simp, (a3 k _ (by omega) (by omega)).1 h⟩
+  · rintro ⟨iy, hiy, h⟩
+    simp only [List.mem_cons, List.not_mem_nil, or_false] at hiy
+    rcases hiy with rfl | rfl | rfl
+    · exact ⟨x.y - 1 + 28 * n, by simp, (a1 k _ (by omega) (by omega)).2 h⟩
+    · exact ⟨x.y + 28 * n, by simp, (a2 k _ (by omega) (by omega)).2 h⟩
+    · exact ⟨x.y + 1 + 28 * n, by simp, (a3 k _ (by omega) (by omega)).2 h⟩
 
 theorem bydayInYear_sh28 (r : Rule) (x : Inst) (n : Nat) (h1 : 1901 ≤ x.y) (h2 : x.y + 28 * n ≤ 2099) :
     bydayInYear r (sh28 x n) ↔ bydayInYear r x := by
